@@ -48,6 +48,9 @@ func AlgebraLeaves() []*m.Crit {
 	}
 	out = append(out, m.In("x", int64(1), "a"), m.In("x", nil), m.In("x", fy), m.In("x", "$y", int64(2)), m.In("x"), m.In("x", fz),
 		m.Contains("x", int64(1)), m.Contains("x", int64(1), "a"), m.Contains("x", fy), m.Contains("x"), m.Contains("x", "$y", int64(1)),
+		// more operands than the array has elements: operands may repeat or be equal across numeric types / references
+		m.Contains("x", int64(1), "a", int64(1)), m.Contains("x", int64(1), uint64(1), float64(1)), m.Contains("x", fy, "$y", int64(1)), m.Contains("x", "a", "a", "a", "a"),
+		m.In("x", int64(1), int64(1), uint64(1)), m.In("x", "zz", nil, nil),
 		m.Exists("x"), m.Exists("y"), m.NotExists("x"), m.Like("x", "^a"), m.Leaf("eq", "y", int64(1)))
 	return out
 }
